@@ -93,7 +93,7 @@ def install():
         for x, i in zip(f2, idx):
             n = (len(x) - 2) // 2
             if n <= 15:
-                ev.append(dict(op='F2_to_index', a=li(x), digits=int_to_digits(i, n), mode='single' if single else 'batch'))
+                ev.append(dict(op='F2_to_index', a=li(x), digits=int_to_digits(i, n), mode='single' if single else 'batch', inrange=bool(0 <= int(i) < 4 ** n)))
 
     def log_index_to_F2(a, kw, ret):
         with_sign = a[2] if len(a) > 2 else kw.get('with_sign', True)
@@ -121,7 +121,7 @@ def install():
         ii = [ret] if isinstance(s, str) else list(np.asarray(ret).reshape(-1))
         for x, i in zip(ss, ii):
             if len(str(x)) <= 15:
-                ev.append(dict(op='str_to_index', letters=[LET.index(c) for c in str(x)], mode='single' if isinstance(s, str) else 'batch', digits=int_to_digits(i, len(str(x)))))
+                ev.append(dict(op='str_to_index', letters=[LET.index(c) for c in str(x)], mode='single' if isinstance(s, str) else 'batch', digits=int_to_digits(i, len(str(x))), inrange=bool(0 <= int(i) < 4 ** len(str(x)))))
 
     for name, log in (('pauli_F2_to_str', log_F2_to_str), ('pauli_str_to_F2', log_str_to_F2), ('pauli_F2_to_index', log_F2_to_index),
                       ('pauli_index_to_F2', log_index_to_F2), ('pauli_index_to_str', log_index_to_str), ('pauli_str_to_index', log_str_to_index)):
